@@ -1,5 +1,6 @@
 import Amqp.Model.Consumers
 import Amqp.Model.Close
+import Amqp.Lemmas.TagReuse
 import Amqp.Gen.Skel
 /-!
 # C14 — the client's consumer bookkeeping always matches the broker's
@@ -454,6 +455,38 @@ theorem dispatch_always_finds_callback (as : List Act) (s s' : S) (hr : run {} a
 /-- the same delivery does block while `consume()` is between ConsumeOk and storing the callback -/
 example : (run {} [.acquire 1, .consumeRpc 1 "a" 7, .consumeAdd 1]).bind (fun s => step s (.dispatch "a")) = none := by
   decide
+
+/-! ## Tags used again
+
+The transition system above never re-uses a tag.  `Amqp.TagReuse` is the sequential complement: any
+history of consume / cancel / broker cancel / deliver over tags the application re-uses at will
+refines the map "tag ↦ callback of the latest consume". -/
+
+/-- **every delivery is handed to the callback of the latest consume() with its tag**, and the tag list is the
+    list of consumers not cancelled since — for every history -/
+theorem deliveries_go_to_latest_callback (ops : List TagReuse.Op) :
+    (TagReuse.run ops).out = (TagReuse.Spec.run ops).out ∧ (TagReuse.run ops).tags = (TagReuse.Spec.run ops).live :=
+  ⟨(TagReuse.run_refines ops).2.2, (TagReuse.run_refines ops).1⟩
+
+/-- spelled out: a consumer tag is cancelled (or not) and used again with another callback; whatever else
+    happens in between, a delivery for it goes to the new callback -/
+theorem delivery_after_reuse (pre mid : List TagReuse.Op) (x : String) (cb : Nat)
+    (hm : ∀ c, TagReuse.Op.consume x c ∉ mid) :
+    (TagReuse.run (pre ++ [.consume x cb] ++ mid ++ [.deliver x])).out.getLast? = some (x, some cb) := by
+  rw [(deliveries_go_to_latest_callback _).1]
+  simp only [TagReuse.Spec.run, List.foldl_append, List.foldl_cons, List.foldl_nil]
+  simp only [TagReuse.Spec.step, List.getLast?_append, List.getLast?_singleton, Option.some_or]
+  rw [TagReuse.spec_latest_mid x mid hm]
+  simp
+
+/-- how the callback is stored is the source's plain assignment (regenerated) -/
+theorem gen_consume_store : Gen.Close.consumeStoreOverwrites = true := by decide
+
+/-- with `setdefault` instead, the second consumer's deliveries go to the first one's callback -/
+theorem setdefault_dispatches_stale :
+    (TagReuse.runP false [.consume "t" 1, .cancel "t", .consume "t" 2, .deliver "t"]).out = [("t", some 1)] := by decide
+example : (TagReuse.run [.consume "t" 1, .cancel "t", .consume "t" 2, .deliver "t", .brokerCancel "t"]) =
+    { tags := [], callbacks := [("t", 2), ("t", 1)], out := [("t", some 2)] } := by decide
 
 /-- What the assumption on the broker excludes: if the broker's cancel notification is processed
     before `consume()` recorded the tag, the client keeps a consumer the broker no longer has. -/
